@@ -99,9 +99,7 @@ def timedOutAt (connected : Bool) (established graceDeadline : Nat) (lastReceive
     (T now : Nat) : Bool :=
   if !connected then
     if established == 0 && decide (now < graceDeadline) then false
-    else match lastReceived with
-      | none => true
-      | some lr => decide (now - lr ≥ T)
+    else true
   else match lastReceived with
     | some lr => decide (now - lr ≥ T)
     | none => false
